@@ -1080,10 +1080,13 @@ RV:
 		}
 	case reflect.Slice, reflect.Chan:
 		if rvIsNil(rv) {
-			if e.h.NilCollectionToZeroLength {
-				e.e.WriteArrayEmpty()
-			} else {
+			if !e.h.NilCollectionToZeroLength {
 				e.e.EncodeNil()
+			} else if uint8TypId == rt2id(rv.Type().Elem()) {
+
+				e.e.writeNilBytes()
+			} else {
+				e.e.WriteArrayEmpty()
 			}
 			goto END
 		}
@@ -5266,10 +5269,13 @@ RV:
 		}
 	case reflect.Slice, reflect.Chan:
 		if rvIsNil(rv) {
-			if e.h.NilCollectionToZeroLength {
-				e.e.WriteArrayEmpty()
-			} else {
+			if !e.h.NilCollectionToZeroLength {
 				e.e.EncodeNil()
+			} else if uint8TypId == rt2id(rv.Type().Elem()) {
+
+				e.e.writeNilBytes()
+			} else {
+				e.e.WriteArrayEmpty()
 			}
 			goto END
 		}
